@@ -15,6 +15,26 @@ deps.add_path()
 os.environ.setdefault("PERSIM_VERIF", "1")
 
 ROOT = os.environ.get("PERSIM_VERIF_ROOT", "/repo")
+# sensitivity tooling only (tools/automutate.py): stop a shard at its first recorded failure; never set by a registered check
+FAIL_FAST = bool(os.environ.get("PV_FAIL_FAST"))
+
+
+_OPEN_SIGS = None
+
+
+def _real_failures(st):
+    """failures that do not match an open known finding (fail-fast mode of the sensitivity tooling only)"""
+    global _OPEN_SIGS
+    if _OPEN_SIGS is None:
+        try:
+            with open(os.path.join(os.path.dirname(os.path.dirname(os.path.abspath(__file__))), "known_findings.json")) as fh:
+                _OPEN_SIGS = [f["signature"] for f in json.load(fh)["open"]]
+        except Exception:  # noqa: BLE001
+            _OPEN_SIGS = []
+    for sig in st.failures:
+        if not any((pat.startswith("*/") and sig.split("/", 1)[-1] == pat[2:]) or sig == pat for pat in _OPEN_SIGS):
+            return True
+    return False
 
 
 def load_persim():
@@ -109,7 +129,7 @@ def run_clause(clause, n, seed, shard, nshards, wall_cap):
             total += 1
             if idx % nshards != shard:
                 continue
-            if st.timeouts >= 2:
+            if st.timeouts >= 2 or (FAIL_FAST and _real_failures(st)):
                 st.budget_exhausted = True
                 continue
             st.add(case, run_case(clause, case))
@@ -127,7 +147,7 @@ def run_clause(clause, n, seed, shard, nshards, wall_cap):
                                      HealthCheck.large_base_example])
     @given(clause.strategy)
     def test(case):
-        if time.time() - t0 > wall_cap or st.timeouts >= 2:
+        if time.time() - t0 > wall_cap or st.timeouts >= 2 or (FAIL_FAST and _real_failures(st)):
             st.budget_exhausted = True
             return
         st.add(case, run_case(clause, case))
@@ -165,6 +185,8 @@ def main(argv):
                 warnings.simplefilter("ignore")
                 st = run_clause(clause, n, seed, shard, nshards, wall_cap)
             result["clauses"][clause.name] = st.to_json()
+            if FAIL_FAST and _real_failures(st):
+                break
     except BaseException as e:  # harness error (generator / oracle / health check)
         result["error"] = "%s: %s\n%s" % (type(e).__name__, e, traceback.format_exc()[-3000:])
     with open(out, "w") as fh:
